@@ -12,6 +12,12 @@ package vm
 //@ ghost var fired bool
 //@ ghost var panicking bool
 
+// doneChan(ctx): the channel returned by ctx.Done(); doneRV(ctx): that channel as a reflect.Value
+//@ spec fun doneChan(ctx context.Context) Ref
+//@ spec fun doneRV(ctx context.Context) RV
+// ctxFirst: a reflect.Select case list whose first case receives from ctx.Done() — every blocking operation of the
+// interpreter races the cancellation of its context (C02)
+//@ spec fun ctxFirst(cases []reflect.SelectCase, ctx context.Context) bool = len(cases) >= 1 && cases[0].Dir == reflect.SelectRecv && cases[0].Chan == doneRV(ctx)
 //@ spec fun riOK(r *runInfoStruct) bool = r != nil && r.env != nil && r.ctx != nil && r.options != nil
 // realErr(e): e is an error proper, not nil and not one of the control-flow sentinels
 //@ spec fun realErr(e error) bool = e != nil && e != ErrBreak && e != ErrContinue && e != ErrReturn
@@ -174,6 +180,7 @@ package vm
 //@ requires stmt != nil
 //@ loop 0 invariant actInv(runInfo) && runInfo.err == nil
 //@ loop 0 progress polls
+//@ callsite reflect.Select * [C02] ctxfirst: ctxFirst(arg0, runInfo.ctx)
 
 //@ func (*runInfoStruct).runCForStmt
 //@ props C04 C08 C02
@@ -249,6 +256,7 @@ package vm
 //@ like template.evalStmt
 //@ requires stmt != nil
 //@ ensures [C08] nosentinel: runInfo.err != ErrBreak && runInfo.err != ErrContinue && runInfo.err != ErrReturn
+//@ callsite reflect.Select * [C02] ctxfirst: ctxFirst(arg0, runInfo.ctx)
 
 //@ func (*runInfoStruct).runDefers
 //@ props C04 C09 C02
